@@ -199,7 +199,8 @@ class HeapView:
             else:
                 parts.append("□")
         if ks <= UN:
-            parts = [p for p in parts if p != "-"]
+            col, _ = self.get(cid, "child_on_left", view)
+            parts = [parts[0]] if col is True else [parts[-1]]
         return f"{name}({', '.join(parts)})"
 
 
